@@ -65,4 +65,13 @@ ExtrasDecoded(d, o) ==
     /\ o.for_ram_bundle = (Has(d.xfo) /\ Has(d.xmp))
 \* DEVIATION IndexExtrasNotSerialised: to_writer of an index map writes neither key, so both are gone after a cycle
 ExtrasAfterCycle(o2) == o2.xfo = <<>> /\ o2.xmp = <<>> /\ ~o2.for_ram_bundle
+(* --------------------------- token as text ----------------------------- *)
+\* a = [dl, dc, src, sl, sc, nm, rg, raw]: the RESOLVED view of a token (strings, not ids)
+\* Display: "source:line:col" plus " name=..." when the token has a name; a token without a source prints
+\* "<unknown>"; the alternate form adds the generated position and a range marker; Debug wraps the alternate form.
+Render(a) == (IF a.src = <<>> THEN "<unknown>" ELSE a.src[1]) \o ":" \o ToString(a.sl) \o ":" \o ToString(a.sc)
+             \o (IF a.nm = <<>> THEN "" ELSE " name=" \o a.nm[1])
+RenderAlt(a) == Render(a) \o " (" \o ToString(a.dl) \o ":" \o ToString(a.dc) \o ")" \o (IF a.rg THEN " (range)" ELSE "")
+RenderDebug(a) == "<Token " \o RenderAlt(a) \o ">"
+RenderJudged(a) == \A n \in {a.dl, a.dc, a.sl, a.sc} : n < 1073741824        \* larger numbers are logged clamped
 =============================================================================
